@@ -8,7 +8,8 @@ from mindsdb_sql.planner import utils
 from mindsdb_sql.planner.steps import (JoinStep, LimitOffsetStep, MultipleSteps, MapReduceStep,
                                        ApplyTimeseriesPredictorStep)
 from mindsdb_sql.planner.ts_utils import validate_ts_where_condition, find_time_filter, replace_time_filter, \
-    find_and_remove_time_filter, recursively_check_join_identifiers_for_ambiguity, check_time_column_usage
+    find_and_remove_time_filter, recursively_check_join_identifiers_for_ambiguity, check_time_column_usage, \
+    check_latest_usage
 from mindsdb_sql.planner.utils import (query_traversal, )
 
 
@@ -238,6 +239,9 @@ class PlanJoinTSPredictorQuery:
 
         # the order column anywhere else than `column <op> value` is not planned as a time filter: not supported
         check_time_column_usage(preparation_where, time_filter, predictor_time_column_name)
+
+        # LATEST with another operator than > or = (or on another column) would reach the database: not supported
+        check_latest_usage(preparation_where, time_filter)
 
         order_by = [OrderBy(Identifier(parts=[predictor_time_column_name]), direction='DESC')]
 
